@@ -29,9 +29,9 @@ type tr struct {
 	retTyp  string
 
 	recvStruct  map[*ast.Object]string // variables of a single-field struct type (identified with the field)
-	aliases     map[string]string // named func types -> coq type
-	userFuncs   map[string]string // already translated functions -> result type
-	singleField map[string]string // single-field structs are identified with their field
+	aliases     map[string]string      // named func types -> coq type
+	userFuncs   map[string]string      // already translated functions -> result type
+	singleField map[string]string      // single-field structs are identified with their field
 	lastParams  []*local
 }
 
@@ -347,7 +347,7 @@ func (t *tr) expr(e ast.Expr) string {
 }
 
 func l0(t *tr, e ast.Expr) string { return t.expr(e) }
-func isBlank(e ast.Expr) bool { id, ok := e.(*ast.Ident); return ok && id.Name == "_" }
+func isBlank(e ast.Expr) bool     { id, ok := e.(*ast.Ident); return ok && id.Name == "_" }
 
 func coqStr(s string) string { return `"` + strings.ReplaceAll(s, `"`, `""`) + `"` }
 
@@ -621,4 +621,3 @@ func (t *tr) emitFunc(name string, fn *ast.FuncType, recv *ast.FieldList, body *
 	fmt.Fprintf(w, "Definition %s %s : M %s :=\n let st := {| %s |} in\n r <- (%s : M (ctl %s_st %s)) ;;\n ret (match r with Ret v => v | _ => %s end).\n",
 		name, strings.Join(params, " "), ret, strings.Join(inits, "; "), t.block(body.List), name, ret, zeroOf(ret))
 }
-
